@@ -2,6 +2,7 @@
 // run_tet, run_hex).  Operand resolution and "valid argument" tests are identical to ocaml/kcommon.ml.
 #pragma once
 #include "probe.hh"
+#include <OpenVolumeMesh/Attribs/StatusAttrib.hh>
 namespace ovmv {
 static std::string echo(const std::string &nm, const std::vector<long> &l) {
     std::string s = nm;
@@ -9,7 +10,7 @@ static std::string echo(const std::string &nm, const std::vector<long> &l) {
     return s;
 }
 
-struct Result { bool rejected = false; bool has = false; long r = -1; std::string echo; };
+struct Result { bool rejected = false; bool has = false; long r = -1; std::string echo; std::string extra; };
 
 template <class Mesh>
 static Result exec_line(World<Mesh> &w, const std::vector<std::string> &toks) {
@@ -107,6 +108,35 @@ static Result exec_line(World<Mesh> &w, const std::vector<std::string> &toks) {
         res.echo = "PDrop " + toks[1] + " " + std::to_string(p);
         if (p < 0 || p >= (long)w.props[k].size()) { res.rejected = true; return res; }
         w.props[k].erase(w.props[k].begin() + p); return res;
+    }
+    if (name == "StatusGC") {
+        // @StatusGC pm V .. E .. F .. C .. TV .. THE .. THF .. TC ..   (absolute operands)
+        std::map<std::string, std::vector<int>> g; std::string cur;
+        res.echo = "StatusGC";
+        for (size_t i = 1; i < toks.size(); ++i) { res.echo += " " + toks[i];
+            if (i == 1) continue;
+            const std::string &t = toks[i];
+            if (t == "V" || t == "E" || t == "F" || t == "C" || t == "TV" || t == "THE" || t == "THF" || t == "TC") { cur = t; g[cur]; }
+            else g[cur].push_back(std::stoi(t)); }
+        auto inr = [](const std::vector<int> &l, size_t n) { for (int x : l) if (x < 0 || (size_t)x >= n) return false; return true; };
+        if (!(inr(g["V"], m.n_vertices()) && inr(g["E"], m.n_edges()) && inr(g["F"], m.n_faces()) && inr(g["C"], m.n_cells()) &&
+              inr(g["TV"], m.n_vertices()) && inr(g["THE"], m.n_halfedges()) && inr(g["THF"], m.n_halffaces()) && inr(g["TC"], m.n_cells()))) { res.rejected = true; return res; }
+        std::vector<VertexHandle> tv; std::vector<HalfEdgeHandle> the; std::vector<HalfFaceHandle> thf; std::vector<CellHandle> tc;
+        for (int x : g["TV"]) tv.push_back(VertexHandle(x)); for (int x : g["THE"]) the.push_back(HalfEdgeHandle(x));
+        for (int x : g["THF"]) thf.push_back(HalfFaceHandle(x)); for (int x : g["TC"]) tc.push_back(CellHandle(x));
+        std::vector<VertexHandle*> pv; std::vector<HalfEdgeHandle*> phe; std::vector<HalfFaceHandle*> phf; std::vector<CellHandle*> pc;
+        for (auto &x : tv) pv.push_back(&x); for (auto &x : the) phe.push_back(&x); for (auto &x : thf) phf.push_back(&x); for (auto &x : tc) pc.push_back(&x);
+        {
+            StatusAttrib status(m);
+            for (int x : g["V"]) status[VertexHandle(x)].set_deleted(true);
+            for (int x : g["E"]) status[EdgeHandle(x)].set_deleted(true);
+            for (int x : g["F"]) status[FaceHandle(x)].set_deleted(true);
+            for (int x : g["C"]) status[CellHandle(x)].set_deleted(true);
+            status.garbage_collection(pv, phe, phf, pc, toks.at(1) == "1");
+        }
+        auto f = [](auto &l) { std::string s; for (size_t i = 0; i < l.size(); ++i) { if (i) s += " "; s += l[i].is_valid() ? std::to_string(l[i].idx()) : std::string("-"); } return s; };
+        res.extra = "TRK v:" + f(tv) + " | he:" + f(the) + " | hf:" + f(thf) + " | c:" + f(tc);
+        return res;
     }
     fprintf(stderr, "bad op %s\n", name.c_str());
     exit(3);
